@@ -452,7 +452,14 @@ class Weaver:
             body_lo = bo + 1 if bo is not None else None
             loops = find_loops(tmask, body_lo, len(tmask)) if bo is not None else []
             for lp in it.get('loop', []):
-                n = lp['n']
+                if 'match' in lp:
+                    # loop addressed by the text of its header (robust against loops added elsewhere in the body)
+                    cands = [k for k, l in enumerate(loops) if lp['match'] in text[l[0]:l[1]]]
+                    if len(cands) != 1:
+                        raise LostAnchor(f'{file}: loop header {lp["match"]!r} of {item_id} matches {len(cands)} loops')
+                    n = cands[0]
+                else:
+                    n = lp['n']
                 if n >= len(loops):
                     raise LostAnchor(f'{file}: loop #{n} of {item_id} not found (have {len(loops)})')
                 inserts.append((loops[n][1], '\n' + indent(lp['invariant'].strip(), 8) + '\n    /*vx-body*/'))
